@@ -53,8 +53,18 @@ class Gen:
                 p = r.choice([0, 1, 2, 2, 3])
                 prec[c] = p
                 lines.append("commodity %s" % c)
-                lines.append("    format %s %s" % (fmt(Fraction(1000), p) if r.random() < 0.5 else "1,000" + ("." + "0" * p if p else ""), c))
+                # the sample number only carries the number of places: small samples without a comma declare it just as well
+                frac = ("." + "0" * p) if p else ""
+                sample = r.choice([fmt(Fraction(1000), p), "1,000" + frac, "1,000" + frac, "0" + frac, "1" + frac, "100" + frac])
+                lines.append("    format %s %s" % (sample, c))
                 lines.append("")
+            elif r.random() < 0.2:
+                # a declaration WITHOUT a format line declares no precision
+                lines.append("commodity %s" % c)
+                if r.random() < 0.5:
+                    lines.append("    note no format here")
+                lines.append("")
+                meta["flavors"].append("formatless-commodity")
         # aliases: some accounts get an alias, declared at the top, or only after the canonical name has been used, or
         # declared twice (the second declaration adds the alias); postings may then be written with the alias
         alias = {}
@@ -106,6 +116,10 @@ class Gen:
                 lines.append("    format %s %s" % (fmt(Fraction(1000), p), c))
                 lines.append("")
                 meta["flavors"].append("redeclared-format")
+            elif coms and r.random() < 0.06:
+                # a commodity declared again WITHOUT a format: whatever precision was declared before stays
+                lines += ["commodity %s" % r.choice(coms), "    note declared again", ""]
+                meta["flavors"].append("redeclared-formatless")
             if flavor and (k == ntxn - 1 or r.random() < 0.3):
                 fl = flavor
             elif k == bad_at:
@@ -127,6 +141,11 @@ class Gen:
                 acct, sep, rest = p.partition("  ")
                 if acct in declared and r.random() < 0.5:
                     p = alias[acct] + sep + rest
+                if r.random() < 0.1:
+                    # a clear mark on the posting itself changes nothing for book-keeping
+                    p = r.choice(["! ", "* "]) + p
+                    if "posting-mark" not in meta["flavors"]:
+                        meta["flavors"].append("posting-mark")
                 lines.append("    " + p)
             lines.append("")
         text = "\n".join(lines) + "\n"
